@@ -160,6 +160,10 @@ pub enum AbandonAt {
     MidFlight(usize),
     /// all chunks, then flush, then drop
     AfterFlush,
+    /// async only: the write of chunk `n` is polled once and its future dropped (a timeout or
+    /// `select!` would do that), then `commit()` is called. What the commit returns is not
+    /// judged (the cancelled chunk may or may not count) — it must return.
+    CancelThenCommit(usize),
 }
 
 /// Damage applied to a content file from outside (harness-side).
@@ -205,6 +209,9 @@ pub enum BDamage {
     AppendLineFrom(usize),
     /// the bucket file is replaced by a directory (every read of it fails)
     BecomeDir,
+    /// a CR is inserted before the n-th LF (the line before it becomes CRLF-terminated, which
+    /// line readers strip: its record stays valid)
+    CrBeforeLf(usize),
 }
 
 #[derive(Clone, Debug, Serialize, Deserialize, PartialEq)]
@@ -232,6 +239,13 @@ pub struct LinkSpec {
     pub pre_reads: Vec<usize>,
     pub declare: Declare,
     pub integ: IntegDecl,
+    /// relative targets only: spell the path as `s/../../<relative path>` where `s` is a
+    /// symlink (in the working directory) to a directory two levels below it
+    #[serde(default)]
+    pub dotdot_via_symlink: bool,
+    /// partial reads before commit go through `read_vectored` with two buffers (sync only)
+    #[serde(default)]
+    pub vectored_reads: bool,
 }
 
 #[derive(Clone, Debug, Serialize, Deserialize, PartialEq)]
